@@ -237,6 +237,7 @@ def havoc_allocation(ex, c, st_pre, post):
                 cur = ex.heap_term(post, key, ft)
                 nw = cx.fresh_sort("HA_%s_%s" % (cn, f.strip("_")), "(Array Int %s)" % cx.sorts.sort(ft))
                 facts.append("(forall ((r Int)) (=> (select %s r) (= (select %s r) (select %s r))))" % (a0, nw, cur))
+                cx.__dict__.setdefault("heap_defs", {})[nw] = ("alloc-havoc", cur)
                 post = post.with_heap(key, nw)
     return post.assume(*facts)
 
@@ -344,6 +345,7 @@ def construct(ex, ci, args, kwargs, st, k, ctl, node):
         return apply_contract(ex, c, init, args, kwargs, st, k, ctl, node)
     # heap object: allocate, then the __init__ contract with self = the new reference
     r = ex.cx.fresh("new_" + ci.name, T.Ref(ci.name))
+    ex.cx.__dict__.setdefault("new_refs", set()).add(r.t)
     st = ex.allocate(r, ci.name, st)
     return apply_contract(ex, c, init, [r] + list(args), kwargs, st, lambda s, v: k(s, r), ctl, node)
 
@@ -357,6 +359,7 @@ def construct_choice(ex, items, args, kwargs, st, k, ctl, node):
         raise Unsupported("constructor %s has no contract" % ci0.name, node)
     static_cls = init.cls.name
     r = ex.cx.fresh("new_" + static_cls, T.Ref(static_cls))
+    ex.cx.__dict__.setdefault("new_refs", set()).add(r.t)
     arr = alloc_term(ex, st)
     facts = [NOT("(select %s %s)" % (arr, r.t))]
     for cond, ci in items:
@@ -399,6 +402,9 @@ def verify_contract(ex, c):
     for n, t in c.params:
         if t.kind == "ref":
             hyps.append(ex.cls_test(env[n].t, t.args[0]))
+            # python semantics: an object passed in exists (is allocated) at entry
+            hyps.append("(select %s %s)" % (alloc_term(ex, st0), env[n].t))
+            cx.__dict__.setdefault("entry_refs", set()).add(env[n].t)
     for name, e in c.axioms:
         hyps.append(ex.spec_bool(e, pre))
         cx.notes.append("theory fact assumed in %s: %s" % (c.target, name))
